@@ -19,6 +19,52 @@ from .values import (SV, SBool, SBytes, SInt, SSet, SStr, Unsupported, _SSeq, b_
 REPO = os.environ.get('PYVC_REPO', '/repo')
 
 
+class BigConst(SInt):
+    """A large integer literal of the repository, generalised to a symbolic positive integer; arithmetic with other
+    literals is still folded on the literal value (so 131072 // 1024 is the literal 128, not K // 1024)."""
+    __slots__ = ('value',)
+
+    def __init__(self, t, value):
+        SInt.__init__(self, t)
+        self.value = value
+
+    @staticmethod
+    def _lit(x):
+        if isinstance(x, BigConst):
+            return x.value
+        if isinstance(x, int) and not isinstance(x, bool):
+            return x
+        return None
+
+    @staticmethod
+    def _mk(v):
+        if isinstance(v, int) and v >= 65536:
+            return cur().big_const(v)
+        return v
+
+    def __floordiv__(self, o):
+        l = self._lit(o)
+        return self._mk(self.value // l) if l not in (None, 0) else SInt.__floordiv__(self, o)
+
+    def __rfloordiv__(self, o):
+        l = self._lit(o)
+        return self._mk(l // self.value) if l is not None else NotImplemented
+
+    def __mul__(self, o):
+        l = self._lit(o)
+        return self._mk(self.value * l) if l is not None else SInt.__mul__(self, o)
+
+    __rmul__ = __mul__
+
+    def __add__(self, o):
+        l = self._lit(o)
+        return self._mk(self.value + l) if l is not None else SInt.__add__(self, o)
+
+    __radd__ = __add__
+
+    __hash__ = SInt.__hash__
+
+
 # ----------------------------------------------------------------------------- control-flow signals
 class PathEnd(Exception):
     """The current path ends here (loop cut point, infeasible, assume(False))."""
@@ -299,6 +345,8 @@ class Obligation:
         self.failed = []      # list of dict(model=..., path=...)
         self.unknown = []
         self.witnessed = False
+        self.vacuous_paths = 0
+        self.twin_tries = 0
         self.time = 0.0
         self.sample = None
 
@@ -347,18 +395,26 @@ class Engine:
         self.work = []
         self.univ = []
         self.key_terms = []
-        self.int_terms = []
+        self.int_terms = {}
+        self._instantiating = False
         self.path_id = 0
         self.path_log = []
         self.env_hook = None
         self.ghost = {}
         self.big_consts = {}
+        self.feas_timeout_ms = int(os.environ.get('PYVC_FEAS_TIMEOUT_MS', '300'))
+        # side conditions of term normalisation: true ones are refuted in milliseconds, false ones need a model (slow)
+        self.prove_timeout_ms = int(os.environ.get('PYVC_PROVE_TIMEOUT_MS', '200'))
 
     # ------------------------------------------------------------------ path exploration
-    def explore(self, body):
-        """Run `body()` (a Python callable executing one path) for every decision sequence."""
-        self.work = [[]]
+    def explore(self, body, start=None, budget=None):
+        """Run `body()` (a Python callable executing one path) for every decision sequence extending one of the
+        prefixes in `start` (default: all). With a `budget`, stop after that many paths; the unexplored prefixes stay in
+        self.work (work sharing between processes)."""
+        self.work = [list(p) for p in start] if start is not None else [[]]
         while self.work:
+            if budget is not None and self.stats['paths'] >= budget:
+                break
             if self.stats['paths'] >= self.max_paths:
                 raise CheckerError(f'path budget exceeded ({self.max_paths}) in {self.unit}')
             self.prefix = self.work.pop()
@@ -369,7 +425,8 @@ class Engine:
                 self.solver.add(k.t >= 1)
             self.univ = []
             self.key_terms = []
-            self.int_terms = []
+            self.int_terms = {}
+            self._instantiating = False
             self.path_log = []
             self.ghost = {}
             reset_names()
@@ -378,13 +435,19 @@ class Engine:
             self.stats['paths'] += 1
             self.path_id += 1
             _CUR[0] = self
+            _t0 = time.time()
             try:
                 body()
             except PathEnd:
                 pass
+            if os.environ.get('PYVC_TRACE'):
+                import sys
+                print(f'[path {self.stats["paths"]} {time.time() - _t0:.1f}s queue={len(self.work)}] {self.path_log[-5:]}', file=sys.stderr, flush=True)
+            if os.environ.get('PYVC_MAX_PATHS') and self.stats['paths'] >= int(os.environ['PYVC_MAX_PATHS']):
+                break
 
     def big_const(self, v):
-        k = SInt(z3.Int(f'K_{v}'))
+        k = BigConst(z3.Int(f'K_{v}'), v)
         if v not in self.big_consts:
             self.big_consts[v] = k
             if self.solver is not None:
@@ -400,13 +463,16 @@ class Engine:
         if key in cache:
             return True        # the cached term is kept alive below, so its AST id cannot be recycled for another term
         self.solver.push()
-        self.solver.set('timeout', 2000)
+        self.solver.set('timeout', self.prove_timeout_ms)
         try:
             self.solver.add(z3.Not(cond))
             t0 = time.time()
             r = self.solver.check()
             self.stats['solver_calls'] += 1
             self.stats['solver_time'] += time.time() - t0
+            if time.time() - t0 > float(os.environ.get('PYVC_SLOW_T', '1.0')) and os.environ.get('PYVC_SLOW'):
+                import sys
+                print(f'[slow prove_quick {time.time() - t0:.1f}s {r}] {str(cond)[:200]}', file=sys.stderr, flush=True)
         finally:
             self.solver.pop()
             self.solver.set('timeout', self.timeout_ms)
@@ -419,7 +485,7 @@ class Engine:
         t0 = time.time()
         r = self.solver.check(*assumptions)
         dt = time.time() - t0
-        if dt > 1.0 and os.environ.get('PYVC_SLOW'):
+        if dt > float(os.environ.get('PYVC_SLOW_T', '1.0')) and os.environ.get('PYVC_SLOW'):
             import sys
             print(f'[slow {dt:.1f}s {r}] path={self.path_log[-4:]} q={str(assumptions)[:300]}', file=sys.stderr, flush=True)
             if os.environ.get('PYVC_SLOW') == 'dump':
@@ -436,13 +502,19 @@ class Engine:
             i = self.prefix[pos]
         else:
             feas = []
-            for j, c in enumerate(conds):
-                if c is None:
-                    feas.append(j)
-                    continue
-                r = self._check_sat(c)
-                if r != z3.unsat:
-                    feas.append(j)
+            # feasibility pruning only needs refutations; `unknown` keeps the branch (sound). Short budget: finding a
+            # model of a path condition with sequence terms is the expensive direction.
+            self.solver.set('timeout', min(self.timeout_ms, self.feas_timeout_ms))
+            try:
+                for j, c in enumerate(conds):
+                    if c is None:
+                        feas.append(j)
+                        continue
+                    r = self._check_sat(c)
+                    if r != z3.unsat:
+                        feas.append(j)
+            finally:
+                self.solver.set('timeout', self.timeout_ms)
             if not feas:
                 self.stats['infeasible'] += 1
                 raise PathEnd()
@@ -483,8 +555,12 @@ class Engine:
     def assume(self, f):
         if isinstance(f, Forall):
             self.univ.append(f)
-            for k in list(self.key_terms if f.sort == 'str' else self.int_terms):
-                self.solver.add(SBool.of(f.fn(k)).t)
+            self._instantiating = True
+            try:
+                for k in list(self.key_terms if f.sort == 'str' else self.int_terms.get(f.sort, [])):
+                    self.solver.add(SBool.of(f.fn(k)).t)
+            finally:
+                self._instantiating = False
             return
         if isinstance(f, bool):
             if not f:
@@ -495,25 +571,39 @@ class Engine:
     def key(self, k):
         """Register a hash-key term for instantiation of universally quantified hypotheses."""
         k = SStr.of(k)
+        if self._instantiating:
+            return k       # terms that only arise inside an instance of a hypothesis do not trigger further instances
         for e in self.key_terms:
             if e.t.eq(k.t):
                 return k
         self.key_terms.append(k)
-        for f in list(self.univ):
-            if f.sort == 'str':
-                self.solver.add(SBool.of(f.fn(k)).t)
+        self._instantiating = True
+        try:
+            for f in list(self.univ):
+                if f.sort == 'str':
+                    self.solver.add(SBool.of(f.fn(k)).t)
+        finally:
+            self._instantiating = False
         return k
 
-    def ikey(self, i):
-        """Register an integer term (pack id, row id) for instantiation of int-quantified hypotheses."""
+    def ikey(self, i, sort='int'):
+        """Register an integer term of quantifier sort `sort` ('pack': pack ids, 'ino': inode numbers, 'int': any) for
+        the instantiation of the hypotheses quantified over that sort."""
         i = SInt.of(i)
-        for e in self.int_terms:
+        if self._instantiating:
+            return i
+        terms = self.int_terms.setdefault(sort, [])
+        for e in terms:
             if e.t.eq(i.t):
                 return i
-        self.int_terms.append(i)
-        for f in list(self.univ):
-            if f.sort == 'int':
-                self.solver.add(SBool.of(f.fn(i)).t)
+        terms.append(i)
+        self._instantiating = True
+        try:
+            for f in list(self.univ):
+                if f.sort == sort:
+                    self.solver.add(SBool.of(f.fn(i)).t)
+        finally:
+            self._instantiating = False
         return i
 
     def fresh_key(self, hint='k'):
@@ -528,7 +618,7 @@ class Engine:
             ob = self.obligations[name] = Obligation(name)
         ob.paths += 1
         if isinstance(f, Forall):
-            f = f.fn(self.fresh_key('sk') if f.sort == 'str' else self.ikey(SInt.fresh('ski')))
+            f = f.fn(self.fresh_key('sk') if f.sort == 'str' else self.ikey(SInt.fresh('ski'), f.sort))
         if isinstance(f, bool):
             f = SBool.of(f)
         t = z3.simplify(SBool.of(f).t)
@@ -539,25 +629,61 @@ class Engine:
             r = self._check_sat(z3.Not(t))
         if r == z3.unsat:
             ob.discharged += 1
-            if not ob.witnessed:
-                # vacuity twin: the hypotheses together with the clause must be satisfiable
-                self.solver.set('timeout', 2000)
+            if not ob.witnessed and ob.twin_tries < 2:
+                # vacuity twin: the hypotheses together with the clause must be satisfiable (tried on the first paths only;
+                # model finding is the expensive direction, `unknown` is not counted as vacuous)
+                ob.twin_tries += 1
+                self.solver.set('timeout', 400)
                 rr = self._check_sat(t)
                 self.solver.set('timeout', self.timeout_ms)
                 if rr == z3.sat:
                     ob.witnessed = True
                     if ob.sample is None:
                         ob.sample = {'clause': str(t)[:300], 'path': list(self.path_log)[-6:]}
+                elif rr == z3.unsat:
+                    ob.vacuous_paths += 1      # on this path the hypotheses contradict the clause's truth: dead path
         elif r == z3.sat:
             m = self.solver.model()
             ob.failed.append({'path': list(self.path_log), 'trace': list(self.trace), 'model': self._model_dict(m),
                               'clause': str(t)[:2000], 'info': info})
             ob.witnessed = True
         else:
-            ob.unknown.append({'path': list(self.path_log), 'reason': self.solver.reason_unknown(), 'clause': str(t)[:500]})
+            # second attempt, one-shot (non-incremental) solver on the same assertions: z3's incremental core is weaker
+            r2 = self._one_shot(z3.Not(t), name) if os.environ.get('PYVC_ONE_SHOT') else z3.unknown
+            if r2 == z3.unsat:
+                r = z3.unsat
+                ob.discharged += 1
+                self.stats['one_shot_rescues'] = self.stats.get('one_shot_rescues', 0) + 1
+            elif r2 == z3.sat:
+                r = z3.sat
+                ob.failed.append({'path': list(self.path_log), 'trace': list(self.trace), 'model': {'note': 'model found by the one-shot solver'},
+                                  'clause': str(t)[:2000], 'info': info})
+                ob.witnessed = True
+            else:
+                ob.unknown.append({'path': list(self.path_log), 'reason': self.solver.reason_unknown(), 'clause': str(t)[:500]})
         ob.time += time.time() - t0
+        if os.environ.get('PYVC_TRACE') and time.time() - t0 > 0.5:
+            import sys
+            print(f'   [check {time.time() - t0:.1f}s {r}] {name}', file=sys.stderr, flush=True)
         self.solver.add(t)
         return r == z3.unsat
+
+    def _one_shot(self, negated_goal, name=''):
+        s2 = z3.Solver()
+        s2.set('timeout', self.timeout_ms)
+        for a_ in self.solver.assertions():
+            s2.add(a_)
+        s2.add(negated_goal)
+        t0 = time.time()
+        r = s2.check()
+        self.stats['solver_calls'] += 1
+        self.stats['solver_time'] += time.time() - t0
+        if os.environ.get('PYVC_TRACE'):
+            import sys
+            print(f'   [one-shot {time.time() - t0:.1f}s {r}] {name}', file=sys.stderr, flush=True)
+        if os.environ.get('PYVC_SLOW') == 'dump' and r == z3.unknown:
+            open(f'/tmp/pv/unk_{int(t0)}.smt2', 'w').write(s2.to_smt2())
+        return r
 
     def _model_dict(self, m):
         out = {}
